@@ -136,6 +136,23 @@ def parse_public_body(body):
     return k, off
 
 
+def mpi_header_offsets(body):
+    """offsets (within a v4 public key body) of the two-octet MPI bit-count fields"""
+    body = bytes(body)
+    alg = body[5]
+    off = 6
+    n = {1: 2, 2: 2, 3: 2, 17: 4, 16: 3, 20: 3}.get(alg)
+    out = []
+    if n is None:
+        ol = body[off]
+        off += 1 + ol
+        n = 1
+    for _ in range(n):
+        out += [off, off + 1]
+        _, off, _ = mpi_raw(body, off)
+    return out
+
+
 # ---------------------------------------------------------------- secret keys
 SECRET_FIELDS = {1: ('d', 'p', 'q', 'u'), 2: ('d', 'p', 'q', 'u'), 3: ('d', 'p', 'q', 'u'),
                  16: ('x',), 20: ('x',), 17: ('x',), 18: ('s',), 19: ('s',), 22: ('s',)}
